@@ -108,9 +108,12 @@ def prog(n, pattern, old_free=None):
         env = env_box.get("env")
         if env is not None and env.has("alpha_star") and isinstance(env.get("alpha_star"), (Sym, float, int)):
             a = zreal(env.get("alpha_star"))        # ghost read of the local: the witness of the existential
-            on_ray = z3.And(*[zreal(xb[i]) == cs[i] + a * dnew[i] for i in free])
-            run.oblige(tag + "::ensures::newton_truncated",
-                       z3.And(a >= 0, a <= 1, on_ray, z3.Implies(a < 1, touch)), P)
+            # newton_truncated, split into three smaller obligations (nonlinear queries stay stable when small)
+            run.oblige(tag + "::ensures::newton_truncated::factor_in_unit_interval", z3.And(a >= 0, a <= 1), P)
+            for i in free:
+                run.oblige(tag + f"::ensures::newton_truncated::on_exact_newton_ray[{i}]",
+                           zreal(xb[i]) == cs[i] + a * dnew[i], P)
+            run.oblige(tag + "::ensures::newton_truncated::largest_feasible_factor", z3.Implies(a < 1, touch), P)
         else:
             a = run.fresh("alpha_star", R)
             on_ray = z3.And(*[zreal(xb[i]) == cs[i] + a * dnew[i] for i in free])
@@ -148,7 +151,7 @@ def prog(n, pattern, old_free=None):
 def _work(args):
     n, pat, keep, old = args
     return run_program(f"SUBSPACE[n={n},{pat},old_free={old}]", prog(n, pat, old), mode="real", keep_smt=keep,
-                       timeout_ms=60000)
+                       timeout_ms=60000 if n <= 2 else 150000)
 
 
 def run_unit(tier="quick", procs=16):
